@@ -416,12 +416,26 @@ func (s *Server) maybeUpgrade(
 			}
 			t.Send(pong)
 
-			// Force a polling cycle to ensure a fast upgrade.
+			// Force a polling cycle to ensure a fast upgrade - and keep forcing one, as the reference
+			// server does, until the client has switched or the attempt is over: the client waits for its
+			// poll request in flight to be answered before it sends the upgrade packet.
 			noop, err := parser.NewPacket(parser.PacketTypeNoop, false, nil)
 			if err != nil {
 				return
 			}
-			go socket.Send(noop)
+			go func() {
+				over := time.After(s.upgradeTimeout)
+				for {
+					socket.Send(noop)
+					select {
+					case <-done:
+						return
+					case <-over:
+						return
+					case <-time.After(100 * time.Millisecond):
+					}
+				}
+			}()
 		case parser.PacketTypeUpgrade:
 			once.Do(func() { close(done) })
 			socket.upgradeTo(t, c)
